@@ -504,7 +504,9 @@ func (g *gen) opExp(base, ex int) int {
 	o := newOp("Exp")
 	o.A = []int{base, ex}
 	g.p.hasExp = true
-	return g.out(o, &emir{val: new(big.Int).Exp(eb.val, ee.exact, g.mod), of0: true, std: !eb.zeroL, konst: eb.zeroL, zeroL: eb.zeroL})
+	// NB: Exp's doc says "default number of limbs and zero overflow", but the result is a Select between a
+	// product and the running value, so it inherits the base's overflow: no shape claim is made here.
+	return g.out(o, &emir{val: new(big.Int).Exp(eb.val, ee.exact, g.mod), konst: eb.zeroL, zeroL: eb.zeroL})
 }
 
 func (g *gen) opEval(args []int, terms [][]int, coefs []int) int {
@@ -701,7 +703,8 @@ func (g *gen) step() {
 		if !prime {
 			return
 		}
-		if a := g.pickWhere(func(m *emir) bool { return m.val.Sign() != 0 }); a >= 0 {
+		// not on operands shorter than the modulus (probe "inverse/short-operand")
+		if a := g.pickWhere(func(m *emir) bool { return m.val.Sign() != 0 && !(m.konst && !m.std) }); a >= 0 {
 			g.opInv(a)
 		}
 	case k < 74:
@@ -746,7 +749,8 @@ func (g *gen) step() {
 		}
 		g.opFromBits(b, n)
 	case k < 92:
-		if a := g.pickWhere(func(m *emir) bool { return !m.wide }); a >= 0 {
+		// not on zero-overflow elements wider or shorter than the modulus (probes "iszero/...")
+		if a := g.pickWhere(func(m *emir) bool { return !m.wide && !(m.konst && !m.std && !m.zeroL) }); a >= 0 {
 			g.opIsZero(a)
 		}
 	case k < 95:
